@@ -18,8 +18,10 @@
                readable but not canonical (leading zeros, empty header names, HTTP version 2/3) -> "-"
      L         Spec.DbLoadSpec.spec_label -> the same OK line or ERR
      D         Spec.DbLoadSpec.spec_load: the dump of what the text denotes; ERR for a text that is not a
-               database; "-" for texts with sections/keys outside the p0f vocabulary or non-ASCII line edges
-   known = 1 (D only): Spec.DbLoadSpec.known_db, the documented defect class of finding C06-list-remainder. *)
+               database (incl. unknown module headers and keys the module does not have); "-" only for
+               texts with non-ASCII line edges (Unicode white space is outside the reference reader)
+   known = 1 (D only): Spec.DbLoadSpec.known_db, the documented defect classes of the open findings
+               C06-list-remainder and C06-unknown-item-skipped. *)
 From Coq Require Import List NArith Bool.
 From Coq Require Import Strings.Byte.
 From HN Require Import Base.Bytes Model.SigAst Model.SigText Model.DbLoad Spec.SigTextSpec Spec.DbLoadSpec.
